@@ -283,7 +283,9 @@ Section Auth.
 
   Definition authentic (m : memo) : Prop :=
     exists v bodies, snd m = Some v /\ v <> [] /\ fst (fst m) = concat bodies /\
-                     Forall (fun b => exists d, In d H /\ signed_ok v b d) bodies.
+                     Forall (fun b => exists d, In d H /\ signed_ok v b d) bodies /\
+                     (* at least the zeroth gram was verified for v, also when the text is empty *)
+                     (exists b0 d0, In d0 H /\ signed_ok v b0 d0).
 
   Definition inv (s : state) : Prop :=
     (forall g src, In (g, src) (queue s) -> In g H) /\
@@ -397,10 +399,12 @@ Section Auth.
     unfold fuse in F. destruct (N.of_nat (length (e_grams e)) <? c); [discriminate|].
     destruct (collect (e_grams e) 0 (N.to_nat c)) as [m'|] eqn:C; [|discriminate].
     destruct (utf8_ok m'); [|discriminate]. inversion F; subst m'.
-    destruct He as (v & Hne & Hv & _ & Hall).
+    destruct He as (v & Hne & Hv & H0 & Hall).
     destruct (collect_bodies _ _ _ _ C) as (bs & -> & Fb).
-    exists v, bs. cbn [fst snd]. repeat split; auto.
-    eapply Forall_impl; [|exact Fb]. cbn. intros b [gn Hin]. eapply Hall. exact Hin.
+    exists v, bs. cbn [fst snd]. split; [exact Hv|]. split; [exact Hne|]. split; [reflexivity|]. split.
+    - eapply Forall_impl; [|exact Fb]. cbn. intros b [gn Hin]. eapply Hall. exact Hin.
+    - destruct (gram_at 0 (e_grams e)) as [b0|] eqn:G0; [|contradiction].
+      apply gram_at_In in G0. destruct (Hall _ _ G0) as (d0 & Hd0 & S0). exists b0, d0. auto.
   Qed.
 
   Lemma step_inv : forall s o, (forall g src, o = Dgram g src -> In g H) ->
